@@ -60,9 +60,14 @@ def _cases(draw, tier):
     real_ts = [REAL_T0 * 1000 + x for x in (0, 1000, 2000, 3000, 4000, 6000, 7000, 9000, 19000, 20000)]
     pool = sorted(set(ts + real_ts))
     case = {"tree": tree, "cmd": draw(st.sampled_from(["cp", "cp", "mv", "mv", "ln", "lnsym"]))}
-    mode = draw(st.integers(0, 5))
+    mode = draw(st.integers(0, 7))
     case["src"] = "top"
     case["chs"] = None
+    if mode == 6:
+        # a channel list that names nothing that exists (a mistyped name, a channel not recorded yet): nothing is transferred
+        case["chs"] = [[draw(st.sampled_from(["ch9", "ch", "ch100"]))]]
+    elif mode == 7:
+        case["chs"] = [[draw(st.sampled_from(top_children)), "ch9"]]
     if mode == 1:
         case["chs"] = [[draw(st.sampled_from(top_children))]]
     elif mode == 2:
